@@ -46,7 +46,7 @@ def check_cfg(ctx, fx, cfg):
     polls = sorted((i.get("trait"), i["self"]) for i in fx.d["impls"] if i.get("trait") in ("futures_core::stream::Stream", "core::future::future::Future", "futures_core::future::FusedFuture", "futures_core::stream::FusedStream", "futures_sink::Sink"))
     ok = polls == [("core::future::future::Future", "addr::Addr<A>")]
     ctx.require(ok, "R13.7", "hand-written-polls@" + cfg, "a new hand-written Future / Stream implementation in the crate: its Pending paths must register a waker (not decidable here) — found %s" % polls, site=[i["loc"] for i in fx.d["impls"] if i.get("trait") in ("futures_core::stream::Stream", "futures_core::future::FusedFuture", "futures_core::stream::FusedStream")][:1] or None, detail=polls)
-    res = run_loops(ctx, fx, "R13.1", {"L1", "L2", "L3", "L4", "L5", "L6", "L7", "L8", "L9", "L11", "L13"})
+    res = run_loops(ctx, fx, "R13.1", {"L1", "L2", "L3", "L4", "L5", "L6", "L7", "L8", "L9", "L11", "L13"}, kinds=("stream",))
     for f, kind, b, n in res:
         if kind != "stream":
             continue
